@@ -77,6 +77,12 @@ func (cln *CLNClient) ConnectionStatus() error {
 }
 
 func (cln *CLNClient) CreateInvoice(amount uint64) (Invoice, error) {
+	// the node is asked in msat: an amount that does not fit would wrap
+	// around and the invoice would be for (much) less than the amount
+	if amount > math.MaxUint64/1000 {
+		return Invoice{}, fmt.Errorf("amount %v is too large", amount)
+	}
+
 	r := rand.New(rand.NewPCG(uint64(time.Now().UnixMicro()), uint64(time.Now().UnixMilli())))
 
 	body := map[string]interface{}{
